@@ -23,9 +23,20 @@ Clause(r) ==
                    ad == Addresses(run, r.loop)
                IN \E j \in 1..Len(run) : r.yields[k].segs[j].addr # ad[j] THEN "tree_shape"
      ELSE ""
+(* implementation-shaped layer: the addresses the transcription of _add_segment computes from the walker's pop/push lists
+   must be the observed ones; a difference is specification drift (reported, not a violation) *)
+Drift(r) ==
+  LET g == Groups(r.src, r.loop) IN
+  r.exc = "" /\ Len(r.yields) = Len(g) /\
+  \E k \in 1..Len(g) : g[k].kind = "tree" /\ r.yields[k].kind = "tree" /\ Len(r.yields[k].segs) = Len(g[k].idx) /\
+      LET run == [j \in 1..Len(g[k].idx) |-> r.src[g[k].idx[j]]]
+          ad == ImplAddresses(run, r.loop)
+      IN \E j \in 1..Len(run) : r.yields[k].segs[j].addr # ad[j]
 Init == i = 1 /\ rej = {}
 Step == /\ i <= Len(Recs)
-        /\ LET c == Clause(Recs[i]) IN rej' = IF c = "" THEN rej ELSE rej \cup {<<Recs[i].id, c>>}
+        /\ LET c == Clause(Recs[i])
+               withdrift == IF Drift(Recs[i]) THEN {<<Recs[i].id, "drift">>} ELSE {}
+           IN rej' = (IF c = "" THEN rej ELSE rej \cup {<<Recs[i].id, c>>}) \cup withdrift
         /\ i' = i + 1
 Spec == Init /\ [][Step]_<<i, rej>>
 Report == (i > Len(Recs)) => PrintT(<<"REJECTS", ToJson([rej |-> rej])>>)
